@@ -56,6 +56,7 @@ def gen_case(rng, index, tier):
     opts, stdin, env_extra, optclass = c01.pick_options(
         L, rng, workdirs, [arg], index, allowed=set(OPTS))
     c01.add_stale(L, rng, [arg], index, p=0.25)
+    c01.add_partial_trash_dirs(L, rng)
     case = L.desc()
     case['env'] = dict(case['env'], **env_extra)
     case['args'] = [arg]
